@@ -1,5 +1,6 @@
 """C13 - inbound deframing is exact under arbitrary fragmentation (DESIGN.md 4/C13)."""
 from common import *
+from bits import Bits, describe
 
 META = {
     'level': 'other',
@@ -9,10 +10,10 @@ META = {
                    'requested from the link sum to the declared frame length, (R13.3) the header-size guard tested on '
                    'the path equals the header bytes consumed on it and its failing edge returns Err without reading, '
                    '(R13.4) no zero-size read can reach Link::read from the deframer. Decides the structural clauses; '
-                   'the numeric decoding of the length/flag bits is not decided.',
+                   '(R13.5) the declared length and the security flags are decoded bit-exactly (bit-provenance abstract domain compared with MS-RDPBCGR 2.2.9.1.2).',
     'assumptions': ['std::io::Read::read_exact fills the buffer or fails (std contract)',
                     'vec![0; n] has length n',
-                    'kind/flag bit extraction ((action>>6)&3, long/short length decoding) is not decided'],
+                    ],
     'trusted_base': ['rustc nightly MIR construction', 'mirfacts exporter', 'rules/c13.py, sym.py, facts.py'],
 }
 
@@ -32,6 +33,48 @@ def is_zero_test(e, target):
             if y[0] == 'const' and y[1] == 0 and same_value(x, target):
                 return 'eq' if e[1] == 'Eq' else 'ne'
     return None
+
+
+def check_decoding(ctx, rd, st, kind, X, payload, nconst):
+    B = Bits()
+    if kind == 'Raw':
+        x = unwrap_cast(resolve(st, X))
+        ok = x[0] == 'mutated' and x[1] == '<model::data::Value<u16> as model::data::Message>::read' \
+            and x[3] is not None and strip(x[3])[0] == 'agg' and strip(x[3])[2] == 'BE'
+        ctx.check(ok, 'R13.5', 'decode:tpkt_size', 'the TPKT length is the 16-bit big-endian field read after the two header bytes', rd.where(),
+                  'tpkt::Client::read does not take the slow-path length from a big-endian U16 read from the header')
+        return
+    bits = B.eval(X, 16, 8)
+    names = {}
+    # leaves are u8 reads; order them by the block of the read call
+    order = sorted(range(len(B.leaves)), key=lambda i: B.leaves[i][2] if B.leaves[i][0] == 'mutated' else 10 ** 6)
+    for n_, i in enumerate(order):
+        names[i] = 'byte%d' % (n_ + 1)
+    if nconst == 2:     # long form: 2 + 1 header bytes
+        want = None
+        if len(order) == 2:
+            a, b = order
+            want = [(b, k) for k in range(8)] + [(a, k) for k in range(7)] + [0]
+        ctx.check(want is not None and bits == want, 'R13.5', 'decode:fastpath_long',
+                  'long fast-path length = ((byte1 & 0x7f) << 8) | byte2, bit 15 clear  [%s]' % describe(bits, names), rd.where(),
+                  'tpkt::Client::read decodes the two-byte fast-path length as [%s]; MS-RDPBCGR 2.2.9.1.2: bits 14..8 = byte1[6..0], bits 7..0 = byte2'
+                  % describe(bits, names))
+    else:
+        want = [(order[0], k) for k in range(8)] + [0] * 8 if len(order) == 1 else None
+        ctx.check(want is not None and bits == want, 'R13.5', 'decode:fastpath_short',
+                  'short fast-path length = byte1  [%s]' % describe(bits, names), rd.where(),
+                  'tpkt::Client::read decodes the one-byte fast-path length as [%s]' % describe(bits, names))
+    # security flags: top two bits of the action byte
+    if payload[0] == 'agg' and payload[3]:
+        B2 = Bits()
+        fb = B2.eval(payload[3][0], 8, 8)
+        want = None
+        if len(B2.leaves) == 1:
+            want = [(0, 6), (0, 7), 0, 0, 0, 0, 0, 0]
+        first = B2.leaves and B2.leaves[0][0] == 'mutated' and B2.leaves[0][1] == '<u8 as model::data::Message>::read'
+        ctx.check(want is not None and fb == want and first, 'R13.5', 'decode:sec_flags:%d' % nconst,
+                  'fast-path security flags = bits 7..6 of the first header byte', rd.where(),
+                  'tpkt::Client::read extracts the fast-path security flags as [%s] instead of bits 7..6 of the action byte' % describe(fb))
 
 
 def run(ctx):
@@ -184,6 +227,8 @@ def run(ctx):
                           % (kind, K, K), where(rd, reads[-1][1].block),
                           'tpkt::Client::read: the header-size guard on the Ok(%s) path is missing or does not equal the %d header '
                           'bytes (a shorter declared length underflows, a stricter guard rejects legal frames)' % (kind, hdr))
+                # R13.5 bit-exact decoding of the declared length and of the security flags (bit-provenance domain)
+                check_decoding(ctx, rd, st, kind, X, payload, len(consts))
                 # the payload really is the last read's result
                 pl = payload[3][-1] if payload[0] == 'agg' and payload[3] else ('unknown',)
                 plv = unwrap_cast(pl)
